@@ -129,7 +129,7 @@ def run_rapid(prop, cfg, tier, base_seed, binaries):
         seed = shard_seed(base_seed, prop, i)
         out = os.path.join(outdir, "stats.%d.json" % i)
         logf = os.path.join(outdir, "log.%d.txt" % i)
-        cmd = [binary, "-test.run", "^%s$" % cfg["test"], "-test.count=1", "-test.v",
+        cmd = [binary, "-test.run", "^(%s)$" % tcfg.get("test", cfg["test"]), "-test.count=1", "-test.v",
                "-test.timeout", "%ds" % (budget + 120),
                "-rapid.checks=%d" % checks, "-rapid.seed=%d" % seed, "-rapid.nofailfile",
                "-rapid.shrinktime=%s" % tcfg.get("shrinktime", "20s"),
@@ -187,7 +187,10 @@ def merge_stats(prop, results):
         for k, v in (st.get("known") or {}).items():
             merged["known"][k] = merged["known"].get(k, 0) + v
         for k, v in (st.get("extra") or {}).items():
-            merged["extra"][k] = merged["extra"].get(k, 0) + v
+            if k.startswith("max_"):
+                merged["extra"][k] = max(merged["extra"].get(k, 0), v)
+            else:
+                merged["extra"][k] = merged["extra"].get(k, 0) + v
         for s in (st.get("samples") or []):
             if len(merged["samples"]) < 5:
                 merged["samples"].append(s)
